@@ -330,4 +330,22 @@ mutual
     | c :: cs => okB b c && okBL b cs
 end
 
+/-! ### Histories of API calls on one template -/
+
+/-- The calls of the public API on one template. -/
+inductive Op where
+  | decode (d : DNA)
+  | encode (v : Tmpl)
+
+inductive Res where
+  | value (r : Except Err Tmpl)
+  | dna (r : Except Err DNA)
+
+/-- A history of calls and their results. The model has no state besides the template: this is the
+*claim* that the code is held to (decode / encode keep no cache, hand out no shared objects). -/
+def runOps (W : Cfg) (t : Tmpl) : List Op → List Res
+  | [] => []
+  | .decode d :: ops => .value (decode W t d) :: runOps W t ops
+  | .encode v :: ops => .dna (encode W t v) :: runOps W t ops
+
 end Pg.C13
